@@ -7,8 +7,10 @@ import sys
 
 from . import common
 from .common import Check
-from .c11_ref import REF, denotation
-from .c17_impl import B1_EVENTS, HOUR, MINUTE, HarnessBroken, Impl, Unsupported, QNAME, T_END, T_START, show_outcome
+from .c11_ref import EMPTY_ONLY as REF_EMPTY_ONLY, REF, arity, denotation
+from .c17 import report_blackbox_streams, report_harness_state
+from .c17_impl import (B1_EVENTS, HOUR, MINUTE, HarnessBroken, Impl, Unsupported, QNAME, T_END, T_START, blackbox_skip,
+                       show_outcome)
 from .c17_session import Session, canon, minimise, show_canon
 
 RULE = ("every token kind in every argument position (all 216 kind triples of a 3-argument call, each kind "
@@ -27,7 +29,11 @@ RULE = ("every token kind in every argument position (all 216 kind triples of a 
         "RETURN assigned early / several times / followed by further and by failing statements, SESSIONS of several "
         "queries in one process (a failing query first, the same call texts afterwards with other values; one text "
         "asked of two datastores with different contents alive at once; a text asked three times), 10 001-element "
-        "lists; every query of a session is compared with the reference and the model run on that query alone; "
+        "lists; every built-in the reference evaluator knows with EVERY admissible number of written arguments (least .. most of "
+        "the frozen registry: optional parameters supplied and left out; echo with 0-3), arguments of the declared types from a "
+        "pool (bucket ids / id fragments, hostnames, event lists), literal and through variables, the call bare / in a list / in a "
+        "dict / as an argument / assigned and repeated, against two datastores whose buckets carry different hostnames; "
+        "every query of a session is compared with the reference and the model run on that query alone; "
         "non-trivial = distinct program text containing a call, a list or a dict")
 
 # every ASCII character str.strip() removes (Model/PyStr.v is_space): \t \n \x0b \x0c \r \x1c-\x1f and the space
@@ -149,8 +155,11 @@ def g_list_literal(rng, depth, bound):
 
 def g_call(rng, depth, bound):
     r = rng.random()
-    if r < 0.5:
+    if r < 0.46:
         return ("call", "echo", [g_term(rng, depth - 1, bound) for _ in range(rng.choice([0, 1, 2, 3]))])
+    if r < 0.5:      # the built-in with an optional parameter: with and without it
+        return ("call", "find_bucket", [("str", rng.choice("\"'"), rng.choice(["b1", "b", "1", "", "b2", "zz"]))]
+                + ([("str", rng.choice("\"'"), rng.choice(["h1", "h1", "h2"]))] if rng.random() < 0.6 else []))
     if r < 0.6:
         return ("call", "nop", [])
     if r < 0.72:
@@ -161,7 +170,7 @@ def g_call(rng, depth, bound):
         name = rng.choice(sorted(EMPTY_ONLY))
         return ("call", name, [("list", []) if ty == "list" else g_str(rng) for ty in REF[name][0]])
     if r < 0.97:     # wrong count or wrong type: the reference predicts the error class
-        name = rng.choice(["limit_events", "concat", "nop"])
+        name = rng.choice(["limit_events", "concat", "nop", "find_bucket"])
         return ("call", name, [g_term(rng, 0, bound) for _ in range(rng.choice([0, 1, 2, 3]))])
     return ("call", "no_such_function", [g_term(rng, depth - 1, bound) for _ in range(rng.choice([0, 1]))])
 
@@ -449,6 +458,70 @@ def corpus_history():
     yield [("x", I(0))] + [("x", L(V("x")))] * 3 + [("y%d" % (i % 50), I(i)) for i in range(10001)] + [("RETURN", L(V("x"), V("y49")))]
 
 
+# -- every admissible argument count -------------------------------------------------------------
+# The statement: a call applies the named built-in to the values of ALL of its arguments.  A built-in may admit
+# several argument counts (a parameter with a default, a variadic one); a call with any admissible count is a
+# well-formed program and denotes the application to exactly the written arguments.
+ARG_POOL = {
+    "list": [L(), L(I(1), I(2), I(3)), C("query_bucket", S("b1"))],
+    "str": [S("b1"), S("h1", "'"), S("b"), S("h2"), S("app")],        # bucket ids, fragments of ids, hostnames, a data key
+    "int": [I(2), I(0)],
+}
+CALL_NESTINGS = [
+    lambda t: [("RETURN", t)],
+    lambda t: [("RETURN", L(t))],
+    lambda t: [("RETURN", D(("k", L(t)), ("l", I(1))))],
+    lambda t: [("RETURN", C("echo", t, I(1)))],
+    lambda t: [("v", t), ("RETURN", L(V("v"), t))],
+    lambda t: [("RETURN", C("query_bucket_eventcount", t))],
+]
+
+
+def via_variables(t):
+    """f(a, b) -> a0 = a; a1 = b; RETURN = f(a0, a1): the same arguments arriving through variables"""
+    return [("a%d" % i, a) for i, a in enumerate(t[2])] + [("RETURN", C(t[1], *[V("a%d" % i) for i in range(len(t[2]))]))]
+
+
+def corpus_arity(cap=12):
+    """(program, beyond_least): every built-in of the reference evaluator x every admissible number of written
+    arguments x argument values from ARG_POOL by declared type (all combinations where the count exceeds the
+    least one, i.e. an optional parameter is supplied; otherwise at most `cap`, evenly spread)."""
+    k = 0
+    for name in sorted(REF):
+        types, _ = REF[name]
+        least, most = arity(name)
+        for n in range(least, (3 if most is None else most) + 1):
+            pools = []
+            for i in range(n):
+                ty = "int" if types is None and i % 2 else "str" if types is None else types[i].lstrip("?")
+                pools.append([L()] if ty == "list" and name in REF_EMPTY_ONLY else ARG_POOL[ty])
+            combos = list(itertools.product(*pools))
+            beyond = n > least and types is not None
+            if not beyond and len(combos) > cap:
+                combos = [combos[(j * len(combos)) // cap] for j in range(cap)]
+            # programs that denote a value (on the first datastore as the run starts) before those that denote an error
+            combos.sort(key=lambda args: denotation([("RETURN", C(name, *args))], {"b1": list(B1_EVENTS)})[0] != "value")
+            for args in combos:
+                t = C(name, *args)
+                k += 1
+                for j, nest in enumerate(CALL_NESTINGS):
+                    if beyond or j == k % len(CALL_NESTINGS):
+                        yield nest(t), beyond
+                if n and (beyond or k % 3 == 0):
+                    yield via_variables(t), beyond
+
+
+def ref_matches_registry(impl):
+    """The reference evaluator's own table of parameter types against the frozen registry (a harness consistency
+    check: both are specifications, they must say the same)."""
+    for name in sorted(REF):
+        kinds = [k for k in impl.sigs[name][0] if k not in (0, 1)]
+        want = None if 8 in kinds else [{2: "list", 3: "str", 4: "int", 5: "float", 7: "?"}.get(k, "any") for k in kinds]
+        have = REF[name][0] if REF[name][0] is None else [t[0] if t.startswith("?") else t for t in REF[name][0]]
+        if want != have:
+            raise HarnessBroken(f"reference evaluator and frozen registry disagree about {name}: {have} / {want}")
+
+
 def g_events_prog(rng, bucket="b1"):
     """Statements over event lists: literal-argument sources, in-place and sharing built-ins, aliases, the query
     window rebound; the same source term object throughout."""
@@ -568,6 +641,13 @@ def corpus_sessions():
                ("main", q), ("A", q), ["delete", "A", "h1"], ["delete", "main", "h1"], ("main", q)]
     yield [("main", [("RETURN", C("query_bucket", S("b2")))]), ("A", [("RETURN", C("query_bucket_eventcount", S("b2")))]),
            ("main", [("RETURN", C("query_bucket_eventcount", S("b2")))])]      # "b2" exists in A only
+    # a bucket named by (fragment of its id, hostname): created under another hostname, deleted, re-created
+    fb = [("RETURN", L(C("find_bucket", S("hb"), S("h2")), C("query_bucket_eventcount", C("find_bucket", S("hb-"), S("h2", "'")))))]
+    fb1 = [("x", C("find_bucket", S("hb"))), ("RETURN", C("query_bucket", V("x")))]
+    yield [("A", fb), ["create", "A", "hb-1", [list(e) for e in B1_EVENTS], "h1"], ("A", fb), ("A", fb1),
+           ["create", "A", "hb-2", [list(e) for e in A1_EVENTS], "h2"], ("A", fb), ("main", fb), ["delete", "A", "hb-1"], ("A", fb), ("A", fb1),
+           ["delete", "A", "hb-2"], ("A", fb), ["create", "main", "hb-1", [list(e) for e in B1_EVENTS[:2]], "h2"], ("main", fb), ("A", fb), ("main", fb1),
+           ["delete", "main", "hb-1"], ("main", fb)]
 
 
 def g_session(rng):
@@ -680,12 +760,22 @@ def features(prog):
 
 def main(argv=None):
     ck = Check("C11", argv)
+    try:
+        return run_check(ck)
+    except HarnessBroken as e:
+        # the harness itself cannot work on this tree (unreadable specification, ...): a broken tie with a replay
+        # file that names what no longer checks, like every other one
+        ck.disagreement("harness", f"the harness cannot establish the tie on this tree: {e}", {"harness": str(e)})
+        return ck.finish(RULE)
+
+
+def run_check(ck):
     common.setup_impl_env()
     impl = Impl()
     for n in REF:
         if n not in impl.sigs:
             raise HarnessBroken(f"built-in {n} is not registered")
-    ck.run_witnesses(["w13"])
+    ref_matches_registry(impl)
     ck.prove(extra_targets=["Bridge/BridgeQuery.v"],
              gen_kernels=["query_header", "QString.check", "QInteger.check", "QFunction.check", "QDict.check",
                           "QList.check", "QVariable.check", "qtypes", "_parse_token", "parse_methods", "parse",
@@ -694,20 +784,25 @@ def main(argv=None):
     have_driver = ck.driver("ExC17")
 
     quick = ck.tier == "quick"
-    for d in impl.registry_diffs:       # the built-ins' interface is not the frozen one (corpus/c17_registry.json)
-        ck.disagreement("registry", d, {"registry": d, "snapshot": impl.snapshot_path})
+    report_harness_state(ck, impl)      # interface differences from corpus/c17_registry.json; black-box mode
+    bb_compared, bb_skipped = {}, {}
     # a second datastore alive beside the first: a bucket of the same name with other content, and one more
     sess = Session(impl)
     setup_ops = [["datastore", "A", "memory"], ["create", "A", "b1", [list(e) for e in A1_EVENTS]],
-                 ["create", "A", "b2", [[30 * MINUTE, MINUTE, {"app": "only-in-A"}]]]]
+                 ["create", "A", "b2", [[30 * MINUTE, MINUTE, {"app": "only-in-A"}]], "h2"]]
     for op in setup_ops:
         sess.apply(op)
 
     def contents(dsname):
         return impl.contents[id(sess.dss[dsname])]
 
+    def hosts(dsname):
+        return impl.hosts[id(sess.dss[dsname])]
+
     progs = [("corpus", p, None) for p in corpus()] + [("corpus", p, None) for p in corpus_more()]
     progs += [("corpus-history", p, None) for p in corpus_history()]
+    arity_progs = list(corpus_arity())
+    progs += [("corpus-arity", p, None) for p, _ in arity_progs]
     for p in LAYOUT_GRID_PROGS:         # every white-space character alone at every slot
         for b in SINGLE_BLANKS:
             progs.append(("layout-grid", p, [lambda b=b: b]))
@@ -736,7 +831,7 @@ def main(argv=None):
     def ask(stream, prog, text, dsname="main", history=None, ctx=None):
         """One query: the reference on this program alone (datastore contents as they are), the
         implementation in this process as it is by now, the model on this text alone."""
-        want = denotation(prog, contents(dsname), ctx)
+        want = denotation(prog, contents(dsname), ctx, hosts(dsname))
         r = impl.run(text, ds=sess.dss[dsname], ctx=ctx)
         kind, payload = r["outcome"]
         got = ("value", canon(impl, payload)) if kind == "value" else (kind, payload)
@@ -780,6 +875,9 @@ def main(argv=None):
         except Unsupported as e:
             ck.count("outside-model:" + str(e)[:40])
             return got, op
+        except HarnessBroken as e:          # the recorded calls contradict the modelled plumbing
+            ck.disagreement("query", f"{short!r}: {e}", {"query": text, "stream": stream, "datastore": dsname, "harness": str(e)})
+            return got, op
         wire.append(case)
         expect.append((stream, short, log, wantw, dsname))
         return got, op
@@ -810,6 +908,9 @@ def main(argv=None):
 
     # sessions: several queries one after the other in this process; each against the reference on it alone
     sessions = [("session", q) for q in corpus_sessions()] + [("session-random", g_session(ck.rng)) for _ in range(150 if quick else 10000)]
+    # an optional parameter supplied: one text asked of the second datastore (its buckets carry other hostnames) and of the first
+    beyond = [p for p, b in arity_progs if b]
+    sessions += [("session-arity", [(ds, p) for p in beyond[i:i + 8] for ds in ("A", "main")]) for i in range(0, len(beyond), 8)]
     for stream, queries in sessions:
         memo, history = {}, []
         bl = compact if ck.rng.random() < 0.3 else rnd
@@ -836,12 +937,26 @@ def main(argv=None):
                 ck.disagreement("query", f"driver rejected the case for {text!r}", {"query": text, "model": mo})
                 continue
             out, mlog, exh = mo
+            if log is None:                 # black-box mode: no body record
+                if blackbox_skip(log, mo):
+                    ck.count("black-box:not compared with the model (it asks for a recorded body outcome)")
+                    bb_skipped[stream] = bb_skipped.get(stream, 0) + 1
+                    continue
+                ck.count("black-box:compared with the model (no body outcome needed)")
+                bb_compared[stream] = bb_compared.get(stream, 0) + 1
+                log = []
             if out != wantw or mlog != log or exh != 0:
                 what = (f"{text!r}: model {show_outcome(out)} / implementation {show_outcome(wantw)}"
                         if out != wantw else f"{text!r}: built-in body calls differ")
                 ck.disagreement("query", what + ("" if not stream.startswith("session") else f" (in a session, datastore {dsname})"),
                                 {"query": text, "stream": stream, "datastore": dsname, "model_outcome": show_outcome(out),
                                  "impl_outcome": show_outcome(wantw), "model_calls": mlog, "impl_calls": log})
+    if impl.echo_probe:     # a built-in registered through the public decorator with (*args) is not applied to its arguments
+        ck.failing_input("C11:value-differs-from-text", f"{impl.echo_probe['query']!r} with `echo` registered as "
+                         f"{impl.echo_probe['registered_as']}: the implementation {impl.echo_probe['observed']}, its text denotes "
+                         f"{impl.echo_probe['expected']}", dict(impl.echo_probe))
+    ck.run_witnesses(["w13"])       # after the streams: they register an `echo` of their own (fresh processes)
+    report_blackbox_streams(ck, impl, bb_compared, bb_skipped)
     ck.coverage["registry_specification"] = {"snapshot": impl.snapshot_path, "differences_from_the_tree": impl.registry_diffs,
                                              "live_only_functions_taken_from_the_tree": impl.live_only}
     ck.assumptions += [
@@ -862,8 +977,4 @@ def main(argv=None):
 
 
 if __name__ == "__main__":
-    try:
-        sys.exit(main())
-    except HarnessBroken as e:
-        print(f"VIOLATION property=C11 replay=none no-failing-input-found (harness cannot read the registry: {e})")
-        sys.exit(1)
+    sys.exit(main())
